@@ -3,12 +3,12 @@
 # confirms: patch applies; existing tests pass with it; demo fails with it and passes without it. Leaves the worktree clean.
 W="$1"; M="$2"
 cd "$W" || exit 2
-git checkout -q -- . ; rm -f tests/demo.rs
+git checkout -q -- . ; git clean -fdq src; rm -f tests/demo.rs
 git apply "$M/patch.diff" || { echo "APPLY-FAIL"; exit 2; }
 T=$(cargo test --offline --workspace --no-fail-fast 2>&1 | grep -E '^test result' | awk '{p+=$4; f+=$6} END {print p" passed "f" failed"}')
 echo "existing tests with patch: $T"
 cp "$M/demo.rs" tests/demo.rs
 cargo test --offline --test demo 2>&1 | grep -E '^test result|error(\[|:)' | head -3 | sed 's/^/demo WITH patch: /'
-git checkout -q -- . 
+git checkout -q -- . ; git clean -fdq src
 cargo test --offline --test demo 2>&1 | grep -E '^test result|error(\[|:)' | head -3 | sed 's/^/demo WITHOUT patch: /'
 rm -f tests/demo.rs; git status --porcelain | head -3
